@@ -1270,4 +1270,191 @@ Section Facts.
     intros r0 Hs. split; [apply Inv_init; auto|]. simpl. repeat split; auto; try discriminate.
   Qed.
 
+  (* ------------------------------------------------------------------ two more invariants of every run *)
+  (* failed locks and raised states are backed by a task that really raises *)
+  Definition InvF (s : st V) : Prop :=
+    (forall t, locks s t = LFailed -> failed_task s t) /\ (forall w t, pcw s w = PRaised t -> failed_task s t).
+
+  Lemma InvF_step0 : forall (s s' : st V) e, Inv s -> InvF s -> step0 C s e = Some s' -> InvF s'.
+  Proof.
+    intros s s' e I [Fl Fr] H.
+    assert (Hm : forall t, failed_task s t -> failed_task s' t) by (intros; eapply failed_task_mono; eauto).
+    split.
+    - intros t Hl. destruct e; break_step H; norm; simpl in *.
+      all: try solve [apply Hm; apply Fl; auto].
+      all: try solve [destruct b; apply Hm; apply Fl; auto].
+      all: unfold failed_task in *; simpl in *.
+      all: try solve [unfold upd in Hl; match type of Hl with context [Pos.eqb ?a ?b] => destruct (Pos.eqb a b) eqn:Et end;
+                      try discriminate; apply Fl; auto].
+      + unfold upd in Hl. destruct (Pos.eqb t t1) eqn:Et; [|apply Fl; auto].
+        apply Pos.eqb_eq in Et; subst. apply (Fr w). auto.
+      + discriminate.
+      + destruct (locks s t); discriminate.
+    - intros wq tq Hq. destruct e; break_step H; norm; simpl in *.
+      all: try (casew2 wq w).
+      all: try solve [apply Hm; eapply Fr; eauto].
+      all: try solve [simpl in Hq; discriminate].
+      all: try solve [destruct b; simpl in Hq; try discriminate; rewrite Heqp in Hq; discriminate].
+      all: unfold failed_task in *; simpl in *.
+      all: try solve [eapply Fr; eauto].
+      + inversion Hq; subst. split; auto. exact (proj1 (forallb_stored _ _) H0).
+      + inversion Hq; subst. split; auto. exact (proj1 (forallb_stored _ _) H0).
+      + unfold after_failure in Hq. destruct (c_keep_going C); discriminate.
+      + unfold after_failure in Hq. destruct (c_keep_going C); discriminate.
+  Qed.
+
+  Lemma InvF_init : forall r0, InvF (init r0).
+  Proof. intros r0. split; simpl; intros; discriminate. Qed.
+
+  Lemma InvF_run : forall tr (s s' : st V), Inv s -> InvF s -> run C s tr = Some s' -> InvF s'.
+  Proof.
+    induction tr as [|e tr IH]; simpl; intros s s' I Hf H.
+    - inversion H; subst; auto.
+    - destruct (step C s e) eqn:E; [|discriminate]. destruct (step_inv_some _ _ _ E) as [s1 [E1 E2]]. subst.
+      eapply IH; [eapply Inv_step; eauto | | eauto]. exact (InvF_step0 _ _ _ I Hf E1).
+  Qed.
+
+  (* the ghost clock runs ahead of every stored-at stamp *)
+  Definition Timed (s : st V) : Prop := 0 < now s /\ forall d, results s d <> None -> stored_at s d < now s.
+
+  Lemma Timed_step : forall (s s' : st V) e, Timed s -> step C s e = Some s' -> Timed s'.
+  Proof.
+    intros s s' e [Hp Hs] H. destruct (step_inv_some _ _ _ H) as [s1 [H1 E]]. subst.
+    assert (Hn := now_step0 _ _ _ H1). unfold Timed, tick; simpl. rewrite Hn. split; [lia|]. intros d Hr.
+    destruct (stored_at_step _ _ _ d H1) as [X | [w' [v' [_ X]]]]; [|lia].
+    destruct (results s d) eqn:Er.
+    - assert (stored_at s d < now s) by (apply Hs; congruence). lia.
+    - destruct (results_new _ _ _ H1 _ Hr) as [Y | [w' [v' [Y _]]]]; [congruence|]. subst e.
+      clear X. break_step H1; norm; simpl in *. rewrite upd_same. lia.
+  Qed.
+
+  Lemma Timed_init : forall r0, Timed (init r0).
+  Proof. intros r0. split; simpl; auto. Qed.
+
+  Lemma Timed_run : forall tr (s s' : st V), Timed s -> run C s tr = Some s' -> Timed s'.
+  Proof.
+    induction tr as [|e tr IH]; simpl; intros s s' T H.
+    - inversion H; subst; auto.
+    - destruct (step C s e) eqn:E; [|discriminate]. eapply IH; [eapply Timed_step; eauto | eauto].
+  Qed.
+
+  (* any state in which no lock is held, the chosen workers F are fresh and everybody else has left or
+     is dead is a state from which a (new) execute can begin *)
+  Theorem Restart_of_quiet : forall (F : wid -> bool) (s : st V), Inv s -> InvF s -> Timed s ->
+    (forall t w, locks s t <> LHeld w) ->
+    (forall w, F w = true -> ws s w = fresh_w) ->
+    (forall w, F w = false -> live (pcw s w) = false) ->
+    Restart F (now s) s.
+  Proof.
+    intros F s I [Fl _] [Hp Hs] Hl Hf Hn. split; auto. split.
+    - intros t. destruct (locks s t) eqn:El; auto. exfalso. eapply Hl; eauto.
+    - repeat split; auto.
+  Qed.
+
+  (* ------------------------------------------------------------------ more consequences *)
+  (* C02 (b), counted: once stored, the function of t is never called again, whatever follows *)
+  Theorem stored_never_started_again : forall tr (s s' : st V) t, Inv s -> results s t <> None ->
+    run C s tr = Some s' -> execs s' t = execs s t.
+  Proof.
+    induction tr as [|e tr IH]; simpl; intros s s' t I Hr H.
+    - inversion H; subst; auto.
+    - destruct (step C s e) eqn:E; [|discriminate]. destruct (step_inv_some _ _ _ E) as [s1 [E1 E2]]. subst.
+      assert (I' := Inv_step _ _ _ I E).
+      rewrite (IH _ _ t I' (stored_mono_step0 _ _ _ t I E1 Hr) H). simpl.
+      rewrite (execs_step_eq _ _ _ E1 t). destruct (starts e t) eqn:Es; auto.
+      destruct e; try discriminate Es. simpl in Es. apply Pos.eqb_eq in Es. subst.
+      rewrite (no_start_when_stored _ w t I Hr) in E. discriminate.
+  Qed.
+
+  (* dependencies, transitively *)
+  Inductive anc : tid -> tid -> Prop :=
+  | anc_dep : forall d t, In d (c_deps C t) -> anc d t
+  | anc_trans : forall a d t, anc a d -> In d (c_deps C t) -> anc a t.
+
+  Lemma sound_closed : forall r, Sound r -> forall a t, anc a t -> deps_stored r t -> r a <> None.
+  Proof.
+    intros r Hs a t Ha. induction Ha; intros Hd.
+    - apply Hd; auto.
+    - apply IHHa. destruct (r d) eqn:E.
+      + destruct (Hs _ _ E); auto.
+      + exfalso. eapply Hd; eauto.
+  Qed.
+
+  (* C03 (a), in full: when the function of t is started every task it depends on, directly or not,
+     has its (sequential) result in the store *)
+  Theorem start_needs_all_ancestors : forall (s s' : st V) w t, Inv s -> step C s (EStart w t) = Some s' ->
+    forall a, anc a t -> results s a <> None.
+  Proof.
+    intros s s' w t I H a Ha. eapply sound_closed; eauto; [apply (I_sound _ I) | eapply start_needs_deps; eauto].
+  Qed.
+
+  (* sequential evaluation only adds results *)
+  Lemma seq_eval_mono : forall order r t v, r t = Some v -> seq_eval C order r t = Some v.
+  Proof.
+    induction order as [|t0 order IH]; simpl; intros r t v Hr; auto.
+    destruct (r t0) eqn:E0; auto.
+    destruct (forallb _ (c_deps C t0)); auto.
+    destruct (c_sem C t0 r); auto.
+    apply IH. unfold upd. destruct (Pos.eqb t t0) eqn:Et; auto. apply Pos.eqb_eq in Et. subst. congruence.
+  Qed.
+
+  (* ... and, run over the tasks in an order in which dependencies come first, it computes every
+     value that any sound store holds *)
+  Fixpoint topo (seen : list tid) (order : list tid) : Prop :=
+    match order with
+    | [] => True
+    | t :: rest => (forall d, In d (c_deps C t) -> In d seen) /\ topo (t :: seen) rest
+    end.
+
+  Lemma seq_eval_covers : forall R, Sound R -> forall order seen r, Sound r -> topo seen order ->
+    (forall d v, In d seen -> R d = Some v -> r d = Some v) ->
+    forall t v, In t order -> R t = Some v -> seq_eval C order r t = Some v.
+  Proof.
+    intros R HR. induction order as [|t0 order IH]; simpl; intros seen r Hr Htp Hseen t v Hin HRt; [contradiction|].
+    destruct Htp as [Ht0 Htopo].
+    (* the store after t0 has been processed holds R's value of t0, if R has one *)
+    assert (Hnext : exists r', seq_eval C (t0 :: order) r = seq_eval C order r' /\ Sound r' /\
+                     (forall d v, In d (t0 :: seen) -> R d = Some v -> r' d = Some v)).
+    { simpl. destruct (r t0) eqn:E0.
+      - exists r. split; auto. split; auto. intros d v' [X | X] Y; auto. subst d.
+        rewrite E0. f_equal. exact (sound_unique r R Hr HR t0 v0 v' E0 Y).
+      - destruct (R t0) eqn:ER.
+        + destruct (HR _ _ ER) as [HdR HvR].
+          assert (Hagree : forall d, In d (c_deps C t0) -> r d = R d).
+          { intros d Hd. specialize (HdR d Hd). destruct (R d) eqn:E; [|congruence]. apply Hseen; auto. }
+          assert (Hf : forallb (fun d => match r d with Some _ => true | None => false end) (c_deps C t0) = true).
+          { apply forallb_forall. intros d Hd. rewrite (Hagree d Hd). specialize (HdR d Hd). destruct (R d); congruence. }
+          rewrite Hf. rewrite (sem_frame t0 r R Hagree). rewrite HvR.
+          exists (upd r t0 (Some v0)). split; auto. split.
+          * apply Sound_upd; auto.
+            -- intros d Hd. rewrite (Hagree d Hd). apply HdR; auto.
+            -- rewrite (sem_frame t0 r R Hagree). auto.
+          * intros d v' [X | X] Y.
+            -- subst d. rewrite upd_same. congruence.
+            -- unfold upd. destruct (Pos.eqb d t0) eqn:Ed; [apply Pos.eqb_eq in Ed; subst; congruence | auto].
+        + destruct (forallb _ (c_deps C t0)) eqn:Ef.
+          * destruct (c_sem C t0 r) eqn:Es.
+            -- exists (upd r t0 (Some v0)). split; auto. split.
+               ++ apply Sound_upd; auto. intros d Hd. rewrite forallb_forall in Ef. specialize (Ef d Hd). destruct (r d); congruence.
+               ++ intros d v' [X | X] Y; [subst; congruence|].
+                  unfold upd. destruct (Pos.eqb d t0) eqn:Ed; [apply Pos.eqb_eq in Ed; subst; congruence | auto].
+            -- exists r. split; auto. split; auto. intros d v' [X | X] Y; [subst; congruence | auto].
+            -- exists r. split; auto. split; auto. intros d v' [X | X] Y; [subst; congruence | auto].
+          * exists r. split; auto. split; auto. intros d v' [X | X] Y; [subst; congruence | auto]. }
+    destruct Hnext as [r' [E [Hr' Hseen']]]. simpl in E. rewrite E.
+    destruct Hin as [X | X].
+    - subst t0. apply seq_eval_mono. apply Hseen'; auto. left; auto.
+    - eapply IH; eauto.
+  Qed.
+
+  (* C01 (a), in full: every value a distributed run stores IS the value sequential evaluation computes *)
+  Theorem results_equal_sequential : forall r0 tr (s : st V) order, Sound r0 -> topo [] order ->
+    run C (init r0) tr = Some s ->
+    forall t v, In t order -> results s t = Some v -> seq_eval C order r0 t = Some v.
+  Proof.
+    intros r0 tr s order Hs Ht Hr t v Hin Hv.
+    assert (I : Inv s) by (eapply Inv_run; [apply Inv_init; eauto | eauto]).
+    eapply (seq_eval_covers (results s) (I_sound _ I) order [] r0); eauto. intros d v' [].
+  Qed.
+
 End Facts.
